@@ -85,6 +85,8 @@ def main():
         M = importlib.import_module(mod)
     except BaseException as e:
         print(json.dumps({"status": "import-error", "msg": "%s: %s" % (type(e).__name__, " ".join(str(e).split())[:300])})); return
+    from stepcode.SimpleDataTypes import Unknown as UNKNOWN_VALUE
+    globals()["UNKNOWN_VALUE"] = UNKNOWN_VALUE
     classes = {c.name: c for c in tree.body if isinstance(c, ast.ClassDef)}
     cname = next((c for c in (spec["ent"], spec["ent"] + "_") if c in classes), None)
     if cname is None:
@@ -113,7 +115,7 @@ def main():
     for env in spec["envs"]:
         row = {}
         try:
-            inst = cls(*env)
+            inst = cls(*[UNKNOWN_VALUE if v == "U" else v for v in env])
         except BaseException as e:
             print(json.dumps({"status": "shape-error", "msg": "constructor: %s: %s" % (type(e).__name__, e)})); return
         for name in spec["derived"]:
